@@ -10,9 +10,12 @@ CHECKS = {
                 "documented byte layout, lossless self-delimiting reads for every finite message sequence under every "
                 "fragmentation (incl. data+EOF), refusal after exactly 28 bytes; the model is tied to message.go/basic.go by "
                 "regenerated field/step tables (kernel-checked equalities) and by a differential run of Message.Read/Write "
-                "against the compiled model on scripted streams",
-        "note": "trusts the Lean kernel, the go/ast extractor, the harness' scripted reader and the hand transcription of "
-                "basic.ReadN's loop (tied by its extracted branch list and by differential runs incl. malformed streams)",
+                "against the compiled model on scripted streams; the writing side against any io.Writer (Model/WriteN.lean, "
+                "Props/C01Write.lean: whatever the writer takes and reports, it holds a prefix of the message; success means "
+                "exactly the message), compared on writers that take the message in pieces",
+        "note": "trusts the Lean kernel, the go/ast extractor, the harness' scripted reader / writer and the hand transcription of "
+                "basic.ReadN's and basic.WriteN's loops (tied by their extracted branch lists and by differential runs incl. malformed "
+                "streams, short writes, errors with data)",
         "technique": "Lean 4 proof (induction over the chunk list / message list) + regenerated tie lemmas + differential correspondence",
     },
     "C20": {
@@ -196,6 +199,9 @@ CHECKS = {
                 "its acknowledgement and its cancel request was put on its connection and, once dispatched before the "
                 "cancel request, received; after cancel the handler can be removed and nothing is added afterwards; no "
                 "event after the unregistration was handled; removing one user of the server's table keeps all others; "
+                "a registration that fails is a step of the machine (count and lock given back, the next subscriber "
+                "registers again); the loop of UpdateSignal over the copied users is modelled with the sends' answers as "
+                "parameters (every copied user is sent to, whatever fails); "
                 "the two repaired defects are kept as refutation theorems of the old choices",
         "note": "partial: the clause 'no event after the acknowledged removal' is false of the code when an emission had copied the users "
                 "before (Props/C13Emit.lean models UpdateSignal with its real grain: refutation event_after_acknowledgement = known finding; "
@@ -210,8 +216,10 @@ CHECKS = {
                 "write is what the next read returns and emits exactly one change event carrying it, other properties "
                 "untouched; the same for service-side updates; for concurrent writers (checks / save / notify interleaved "
                 "arbitrarily) the register is at every moment the committed writes in the order of their save steps; tied "
-                "by the regenerated flows of SetProperty / Property / saveProperty / UpdateProperty and the generated "
-                "callback, and by exact and concurrent runs on two real objects",
+                "by the regenerated flows of SetProperty / Property / saveProperty / UpdateProperty / UpdateSignal and the generated "
+                "callback, and by exact and concurrent runs on two real objects; the announcement reaches every subscriber of "
+                "the copy whatever the sends to the others answer (Props/C13Loop.lean; scenarios with a subscriber that leaves "
+                "or is lost during an announcement)",
         "note": "the order of change events of concurrent writers may differ from the order of their saves (events are sent after the lock is released): not part of the statement",
         "technique": "Lean 4 proof (typing invariant, refinement of the split machine to the committed-write log) + regenerated tie lemmas + exact correspondence and linearizability-checked concurrent histories",
     },
